@@ -11,6 +11,7 @@ verus! {
 //@item src/debugger/breakpoint.rs struct Breakpoint derive=Clone,Copy
 
 //@include bp_spec.rs
+//@include bp_lemmas.rs
 
 // std behaviour assumed: Vec::retain keeps exactly the elements for which the closure returns true, in order
 pub assume_specification<T, A: std::alloc::Allocator, F: FnMut(&T) -> bool> [Vec::<T, A>::retain] (v: &mut Vec<T, A>, f: F)
